@@ -38,6 +38,8 @@ def _install_sign_hooks():
     old_int = T.is_integer
 
     def is_integer(t):
+        if T.EXACT_RATIOS and old_int(t):
+            return True
         for m, c in t.p.items():
             if c.denominator != 1:
                 return False
@@ -56,6 +58,8 @@ def _install_sign_hooks():
                     continue
                 if a.kind == 'ite' and is_integer(a.args[1]) and is_integer(a.args[2]):
                     continue
+                if old_int(Term.of(a)):
+                    continue        # (the domain facts of vstatic.terms: integer-valued calls and attributes)
                 return False
         return True
     T.is_integer = is_integer
@@ -217,6 +221,8 @@ def _rotate_loop_and_a_half(st):
         return _ROT[id(st)][1]
     out = None
     try:
+        if not st.orelse and any(isinstance(n, ast.NamedExpr) for n in ast.walk(st.test)):
+            out = _rotate_walrus_test(st)
         if isinstance(st.test, ast.Constant) and st.test.value is True and not st.orelse:
             def level(stmts):
                 for s_ in stmts:
@@ -239,6 +245,59 @@ def _rotate_loop_and_a_half(st):
         out = None
     _ROT[id(st)] = (st, out)
     return out
+
+
+def _hoist_walrus(test):
+    """(assignments, test') for a test whose assignment expressions are evaluated unconditionally and after nothing but
+    names / constants / attribute reads: `END not in (chunk := f.read(80))`  ->  chunk = f.read(80); END not in chunk"""
+    import copy
+    found = []
+
+    def ok(node, top=True):
+        if isinstance(node, ast.NamedExpr):
+            if not isinstance(node.target, ast.Name) or any(isinstance(x, ast.NamedExpr) for x in ast.walk(node.value)):
+                return False
+            found.append(node)
+            return True
+        if isinstance(node, (ast.Name, ast.Constant)):
+            return True
+        if isinstance(node, ast.Attribute):
+            return ok(node.value)
+        if isinstance(node, ast.UnaryOp):
+            return ok(node.operand)
+        if isinstance(node, ast.Compare):
+            return ok(node.left) and all(ok(c) for c in node.comparators)
+        if isinstance(node, ast.BoolOp):
+            # only the first operand is evaluated unconditionally
+            return ok(node.values[0]) and not any(isinstance(x, ast.NamedExpr) for v in node.values[1:] for x in ast.walk(v))
+        # anything else (calls, subscripts, arithmetic) may not contain an assignment expression
+        return not any(isinstance(x, ast.NamedExpr) for x in ast.walk(node))
+    if not ok(test) or not found:
+        return None
+
+    class R(ast.NodeTransformer):
+        def visit_NamedExpr(self, n):
+            return ast.copy_location(ast.Name(id=n.target.id, ctx=ast.Load()), n)
+    assigns = [ast.copy_location(ast.Assign(targets=[ast.Name(id=n.target.id, ctx=ast.Store())], value=n.value, type_comment=None), n)
+               for n in found]
+    new_test = R().visit(copy.deepcopy(test))
+    for a_ in assigns:
+        ast.fix_missing_locations(a_)
+    ast.fix_missing_locations(new_test)
+    return assigns, new_test
+
+
+def _rotate_walrus_test(st):
+    """while TEST(x := e): BODY      ==      x = e; while TEST(x): BODY; x = e"""
+    h = _hoist_walrus(st.test)
+    if h is None:
+        return None
+    assigns, test = h
+    if any(isinstance(n, ast.Continue) for b in st.body for n in _walk_same_loop(b)):
+        return None
+    loop = ast.copy_location(ast.While(test=test, body=list(st.body) + list(assigns), orelse=[]), st)
+    ast.fix_missing_locations(loop)
+    return (list(assigns), loop, [])
 
 
 def _walk_same_loop(node):
@@ -898,6 +957,18 @@ class Interp:
         return TRUE
 
     def st_For(self, st, fr):
+        if isinstance(st.iter, ast.Call) and ast.unparse(st.iter.func) in ('itertools.product', 'product') and not st.iter.keywords \
+                and isinstance(st.target, (ast.Tuple, ast.List)) and len(st.target.elts) == len(st.iter.args) >= 2 and not st.orelse \
+                and not any(isinstance(a_, ast.Starred) for a_ in st.iter.args) \
+                and not any(isinstance(n_, ast.Break) for b_ in st.body for n_ in _walk_same_loop(b_)):
+            # for a, b in itertools.product(A, B): BODY   ==   for a in A: for b in B: BODY
+            inner = st.body
+            for tg_, it_ in reversed(list(zip(st.target.elts, st.iter.args))):
+                loop_ = ast.For(target=tg_, iter=it_, body=inner, orelse=[], type_comment=None)
+                ast.copy_location(loop_, st)
+                inner = [loop_]
+            ast.fix_missing_locations(inner[0])
+            return self.st_For(inner[0], fr)
         st = _without_continue(st)
         it = it0 = self.ev(st.iter, fr)
         from .sva_expr import small_range_items
@@ -1129,10 +1200,43 @@ class Interp:
         c = after - lv
         for a in T.all_atoms(c).values():
             if a.kind in ('loopvar', 'idx', 'elem', 'key') and info['id'] in a.args:
-                return None
+                return self._reduction(loop, st, name, init, fr)
         return init + c * info['trip']
 
+    def _reduction(self, loop, st, name, init, fr):
+        """for x in it: acc += e(x)   (the only statement of the body, e not reading acc)
+        ==   acc = init + sum([e(x) for x in it]), evaluated in the environment before the loop."""
+        if not (len(loop.body) == 1 and loop.body[0] is st and isinstance(st.op, ast.Add) and not loop.orelse):
+            return None
+        if any(isinstance(n, ast.Name) and n.id == name for n in ast.walk(st.value)):
+            return None
+        if any(isinstance(n, (ast.NamedExpr, ast.Yield, ast.YieldFrom, ast.Await)) for n in ast.walk(st.value)):
+            return None
+        comp = ast.ListComp(elt=st.value, generators=[ast.comprehension(target=loop.target, iter=loop.iter, ifs=[], is_async=0)])
+        call = ast.Call(func=ast.Name(id='sum', ctx=ast.Load()), args=[comp], keywords=[])
+        ast.copy_location(comp, st)
+        ast.copy_location(call, st)
+        ast.copy_location(call.func, st)
+        nev = len(self.events)
+        try:
+            v = self.ev(call, fr)
+        except AnalysisError:
+            return None
+        finally:
+            del self.events[nev:]
+        return init + v
+
     def st_With(self, st, fr):
+        if len(st.items) == 1 and st.items[0].optional_vars is None and isinstance(st.items[0].context_expr, ast.Call):
+            cf = st.items[0].context_expr
+            if ast.unparse(cf.func) in ('contextlib.suppress', 'suppress') and cf.args and not cf.keywords:
+                # with contextlib.suppress(E1, E2): BODY   ==   try: BODY   except (E1, E2): pass
+                typ = cf.args[0] if len(cf.args) == 1 else ast.Tuple(elts=list(cf.args), ctx=ast.Load())
+                tr = ast.Try(body=st.body, handlers=[ast.ExceptHandler(type=typ, name=None, body=[ast.Pass()])],
+                             orelse=[], finalbody=[])
+                ast.copy_location(tr, st)
+                ast.fix_missing_locations(tr)
+                return self.exec_stmt(tr, fr)
         return self._with_items(st, fr, 0)
 
     def _with_items(self, st, fr, k):
